@@ -165,6 +165,9 @@ func genFieldName(t *rapid.T, used map[string]bool, mode int, i int) string {
 	}
 }
 
+// bytes an api.key may hold besides identifier characters (no quote, no backslash: the IDL literal stays plain)
+var aliasPunct = []byte(" !#$%&'()*+,-./:;<=>?@[]^`{|}~")
+
 var forcedIDs = []int{1, 2, 63, 64, 65, 127, 128, 255, 256, 257, 1000, 32767}
 
 func (fc *fileCtx) genFields(t *rapid.T, n int, mode int, enums map[string][]enumVal) []Fld {
@@ -193,6 +196,14 @@ func (fc *fileCtx) genFields(t *rapid.T, n int, mode int, enums map[string][]enu
 		f.T, f.Text = te.ty, te.text
 		if rapid.IntRange(0, 3).Draw(t, "hasAlias") == 0 {
 			a := "k_" + nameParts[rapid.IntRange(0, len(nameParts)-1).Draw(t, "aliasPart")] + fmt.Sprint(i)
+			switch rapid.IntRange(0, 5).Draw(t, "aliasShape") {
+			case 0:
+				// JSON-style keys with punctuation (bytes below '.', where the trie index wraps, and above 'z');
+				// aliases of this shape differ from each other in that one byte only
+				a = "k" + string(aliasPunct[rapid.IntRange(0, len(aliasPunct)-1).Draw(t, "aliasPunct")]) + "x"
+			case 1:
+				a = nameParts[rapid.IntRange(0, len(nameParts)-1).Draw(t, "aliasPart2")] + string(aliasPunct[rapid.IntRange(0, len(aliasPunct)-1).Draw(t, "aliasPunct")]) + "id"
+			}
 			if !usedA[a] {
 				usedA[a] = true
 				f.Alias = a
@@ -237,6 +248,21 @@ func (fc *fileCtx) genFields(t *rapid.T, n int, mode int, enums map[string][]enu
 			}
 		}
 		out = append(out, f)
+	}
+	if mode == 1 && len(out) >= 3 && rapid.Bool().Draw(t, "djbTwin") {
+		// two declared names with the same 32-bit DJB hash: (..., 'a', 'b') and (..., 'b', 'A') since 33*'a'+'b' == 33*'b'+'A'
+		for i := 1; i < len(out); i++ {
+			if strings.HasSuffix(out[i].Name, "ab") {
+				twin := out[i].Name[:len(out[i].Name)-2] + "bA"
+				j := i%(len(out)-1) + 1
+				if j != i && !usedN[twin] {
+					delete(usedN, out[j].Name)
+					out[j].Name = twin
+					usedN[twin] = true
+				}
+				break
+			}
+		}
 	}
 	return out
 }
@@ -416,7 +442,7 @@ func GenModel(t *rapid.T) *Model {
 	if rapid.IntRange(0, 3).Draw(t, "wideWithDJBZero") == 0 {
 		wideMode = 2
 	}
-	nWide := rapid.IntRange(12, 40).Draw(t, "nWide")
+	nWide := rapid.IntRange(12, 60).Draw(t, "nWide")
 	if wideMode == 2 {
 		// one zero-hash name + low-dispersion names
 		s := &Str{Full: "main.Wide", Kind: "struct"}
